@@ -141,6 +141,12 @@ func (r *run) buildFn(def Fn) (fs *fnState) {
 			fs.value = &pool.T0{}
 		case "struct":
 			fs.value = pool.S0{}
+		case "nilfunc":
+			// a typed nil function value: (func() *T0)(nil)
+			fs.value = reflect.Zero(reflect.FuncOf(nil, []reflect.Type{reflect.TypeOf(&pool.T0{})}, false)).Interface()
+		case "nilfunc1":
+			// (func(*T0))(nil)
+			fs.value = reflect.Zero(reflect.FuncOf([]reflect.Type{reflect.TypeOf(&pool.T0{})}, nil, false)).Interface()
 		default:
 			panic(badTypes{"unknown nonfunc " + *def.NonFunc})
 		}
